@@ -8,6 +8,17 @@ static DATE_REGEX: LazyLock<Regex> = LazyLock::new(|| {
     Regex::new("([0-9]{4})(-|:)([0-9]{1,2})(-|:)([0-9]{1,2}) ?([0-9]{1,2})?:?([0-9]{1,2})?:?([0-9]{1,2})?").unwrap()
 });
 
+/// chrono_english panics on some texts that are not dates ("12:61", "-0.79", a multi-byte character
+/// after a digit); for the caller such a text is simply not a date
+fn parse_english_date(s: &str) -> Option<chrono::DateTime<Local>> {
+    let hook = std::panic::take_hook();
+    std::panic::set_hook(Box::new(|_| {}));
+    let result = std::panic::catch_unwind(|| parse_date_string(s, Local::now(), Dialect::Uk));
+    std::panic::set_hook(hook);
+
+    result.ok().and_then(|parsed| parsed.ok())
+}
+
 pub fn parse_datetime(s: &str) -> Result<(NaiveDateTime, NaiveDateTime), String> {
     if s == "today" {
         let date = Local::now().date_naive();
@@ -93,8 +104,8 @@ pub fn parse_datetime(s: &str) -> Result<(NaiveDateTime, NaiveDateTime), String>
         }
         None => {
             if s.len() >= 5 {
-                match parse_date_string(s, Local::now(), Dialect::Uk) {
-                    Ok(date_time) => {
+                match parse_english_date(s) {
+                    Some(date_time) => {
                         let date_time = date_time.naive_local();
                         let finish = if date_time.hour() == 0
                             && date_time.minute() == 0
